@@ -9,6 +9,9 @@ request : {"cases": [{"entry": "gather2" | "gather", "mode": "ret" | "raise" | "
 actions : ["K", i]     partial function i returns (value 100+i)
           ["E", i, e]  partial function i raises error class e (0 -> ErrA, 1 -> ErrB)
           ["X"]        the caller's task is cancelled
+          ["T", i]     (entry online) the task returned by pool.call for partial function i is cancelled
+  entry online : the caller does `async with sema: async with OnlineBoundedGather2(sema) as pool: [pool.call(pf) ...]`
+                 (optionally "body": "raise" - the with-body raises ErrB after submitting); result = list of task results
   the start of the call is implicit; observation 0 is taken after it.
 answer  : {"results": [[obs0, obs after action 1, ...], ...]}
 obs     : {"pf": ["W" never entered | "R" running | "ok" | "err" | "cancelled", ...],   body of every partial function
@@ -61,7 +64,7 @@ def run_case(case):
         holding = [False]
         peak = [0]
         at_return = [None]
-        sema = asyncio.Semaphore(N) if entry == 'gather2' else None
+        sema = asyncio.Semaphore(N) if entry in ('gather2', 'online') else None
         caller_box = []
 
         def alive():
@@ -93,7 +96,30 @@ def run_case(case):
         elif mode == 'cancel':
             kw['cancel_on_error'] = True
 
+        online_tasks = []
+
+        async def caller_online():
+            async with sema:
+                holding[0] = True
+                try:
+                    try:
+                        async with U.OnlineBoundedGather2(sema) as pool:
+                            for pf in pfs:
+                                online_tasks.append(pool.call(pf))
+                            if case.get('body') == 'raise':
+                                raise ErrB()
+                            holding[0] = False        # __aexit__ lends the permit out while it waits
+                    finally:
+                        holding[0] = True
+                        at_return[0] = {'running': sorted(running), 'alive': alive()}
+                        peak[0] = max(peak[0], len(running) + 1)
+                    return [t.result() if (t.done() and not t.cancelled() and t.exception() is None) else None for t in online_tasks]
+                finally:
+                    holding[0] = False
+
         async def caller():
+            if entry == 'online':
+                return await caller_online()
             if entry == 'gather2':
                 async with sema:
                     holding[0] = True
@@ -143,6 +169,9 @@ def run_case(case):
                         futs[i].set_exception(ERR[a[2]]())
             elif op == 'X':
                 ct.cancel()
+            elif op == 'T':
+                if 0 <= a[1] < len(online_tasks):
+                    online_tasks[a[1]].cancel()
             else:
                 raise ValueError(f'bad action {a}')
             dl.settle()
